@@ -72,6 +72,9 @@ def gen_cases(tier, seed):
             for pre in (('ia1', 'oa'), ('oa', 'oa'), ('thr_o', 'oa'), ('nest_io', 'ia1')):
                 for l in letters:
                     yield {'prog': mkprog(pre + (l,)), 'cas': kind}
+        # the same replays on a recorder whose previous replays failed (escaping missing-key error, interrupt)
+        for combo in itertools.product(['ia1', 'oa', 'os', 'ob', 'thr_o'], repeat=2):
+            yield {'prog': mkprog(combo), 'cas': kind, 'after_failed_replay': True}
         # endings
         for l in letters:
             for end in ('raise:E1', 'raise:Unser'):
@@ -159,6 +162,9 @@ def _run(case, prog, box):
     if P.obs_canon(r.obs) != R['obs']:
         viols.append(viol('record:obs-differ-from-reference', 'what the recorded operation observed differs from the reference', R['obs'], P.obs_canon(r.obs)))
     env2 = P.Env(inner=box.fresh(), funcs=prog.get('funcs'), kind=prog.get('kind', 'inst'))
+    if case.get('after_failed_replay'):   # the replaying recorder has just been through a replay that failed with an escaping error
+        P.replay(env2, r.rec_id, {'steps': [{'fn': 'out_a', 'a': ['x1']}, {'fn': 'out_static', 'a': ['x1']}, {'fn': 'in_b', 'a': ['xb'], 'nocatch': True}]})
+        P.replay(env2, r.rec_id, {'steps': [{'fn': 'out_b', 'a': ['x1']}], 'end': 'intr'})
     pl = P.replay(env2, r.rec_id, prog)
     if pl.playback is None:
         return dict(viol=[viol('replay:raised:%s' % type(pl.exc).__name__, 'play() raised on a complete recording of unchanged code', 'Playback', repr(pl.exc))], obs='raised')
